@@ -574,3 +574,175 @@ Proof.
   do 2 eexists. split; [exact Hacc|]. split; [reflexivity|]. split; [intros h; discriminate|].
   split; [vm_compute; reflexivity|]. split; [reflexivity|]. split; reflexivity.
 Qed.
+
+(* ============================================================================================== *)
+(* no runtime fault escapes: neither from a definition nor from a constructor *)
+
+Lemma struct_inst_field elems h k r test v :
+  struct_inst elems (VHash h) = true -> In (k, r, test) elems -> hget h k = Some v -> test v = true.
+Proof.
+  unfold struct_inst. rewrite struct_matched_eq. destruct (forallb (elem_ok h) elems) eqn:E; [|discriminate].
+  intros _ Hin Hg. rewrite forallb_forall in E. specialize (E _ Hin). unfold elem_ok in E. cbn [ekey fst snd] in E.
+  now rewrite Hg in E.
+Qed.
+
+Lemma struct_inst_required elems h k test :
+  struct_inst elems (VHash h) = true -> In (k, true, test) elems -> hget h k <> None.
+Proof.
+  unfold struct_inst. rewrite struct_matched_eq. destruct (forallb (elem_ok h) elems) eqn:E; [|discriminate].
+  intros _ Hin Hg. rewrite forallb_forall in E. specialize (E _ Hin). unfold elem_ok in E. cbn [ekey fst snd] in E.
+  now rewrite Hg in E.
+Qed.
+
+Lemma bind_err {A B} (r : result A) (f : A -> result B) e :
+  bind r f = Err e -> r = Err e \/ exists a, r = Ok a /\ f a = Err e.
+Proof. destruct r as [a|e']; cbn [bind]; intros H; [right; eauto|left; congruence]. Qed.
+
+Lemma new_attribute_no_fault name spec : new_attribute name spec <> Err EFault.
+Proof.
+  unfold new_attribute. destruct (struct_inst attribute_schema (VHash spec)) eqn:Es; cbn [negb]; [|discriminate].
+  destruct (match hget spec k_go_name with Some _ => true | None => false end); [discriminate|].
+  intros H. apply bind_err in H as [H|(typ & _ & H)].
+  - destruct (hget spec k_type) as [v|] eqn:Et.
+    + destruct v; cbn [parse_type_string] in H; discriminate.
+    + eapply (struct_inst_required attribute_schema spec k_type); eauto. now left.
+  - apply bind_err in H as [H|(final & _ & H)].
+    + repeat match type of H with (if ?c then _ else _) = _ => destruct c end; discriminate.
+    + destruct (hget spec k_value).
+      * repeat match type of H with (if ?c then _ else _) = _ => destruct c end; discriminate.
+      * repeat match type of H with (if ?c then _ else _) = _ => destruct c end; discriminate.
+Qed.
+
+Lemma attr_of_spec_no_fault k v : attr_of_spec k v <> Err EFault.
+Proof.
+  unfold attr_of_spec. destruct v; cbn [parse_type_string bind]; try discriminate; apply new_attribute_no_fault.
+Qed.
+
+Lemma assert_override_no_fault a pm : assert_override a pm <> Err EFault.
+Proof.
+  unfold assert_override. destruct (find_attr pm (a_name a)).
+  - repeat match goal with |- (if ?c then _ else _) <> _ => destruct c end; discriminate.
+  - destruct (a_override a); discriminate.
+Qed.
+
+Lemma build_attrs_no_fault : forall specs pm acc, build_attrs specs pm acc <> Err EFault.
+Proof.
+  induction specs as [|[k v] r IH]; intros pm acc; cbn [build_attrs]; [discriminate|]. intros H.
+  apply bind_err in H as [H|(a & _ & H)]; [now apply attr_of_spec_no_fault in H|].
+  apply bind_err in H as [H|(u & _ & H)]; [now apply assert_override_no_fault in H|]. now apply IH in H.
+Qed.
+
+Lemma constant_specs_no_fault : forall consts names pm, constant_specs consts names pm <> Err EFault.
+Proof.
+  induction consts as [|[k v] r IH]; intros names pm; cbn [constant_specs]; [discriminate|].
+  destruct (mem_str k names); [discriminate|]. destruct (generalize_of v); [|discriminate]. intros H.
+  apply bind_err in H as [H|(rest & _ & H)]; [now apply IH in H|discriminate].
+Qed.
+
+Lemma check_equality_no_fault : forall names own pm pe, check_equality names own pm pe <> Err EFault.
+Proof.
+  induction names as [|n r IH]; intros own pm pe; cbn [check_equality]; [discriminate|].
+  destruct (lookup_member own pm n); [|discriminate]. destruct (kind_eqb _ _); [discriminate|].
+  destruct (match pe with Some l => mem_str n l | None => false end); [discriminate|apply IH].
+Qed.
+
+Lemma check_serialization_found : forall names own pm b, check_serialization names own pm b = Ok tt ->
+  forall n, In n names -> lookup_member own pm n <> None.
+Proof.
+  induction names as [|x r IH]; intros own pm b H n Hin; [contradiction|]. cbn [check_serialization] in H.
+  destruct (lookup_member own pm x) as [a|] eqn:E; [|discriminate].
+  destruct (kind_eqb (a_kind a) KConstant || kind_eqb (a_kind a) KDerived); [discriminate|].
+  destruct Hin as [<-|Hin]; [congruence|].
+  destruct (is_opt_attr a); [eapply IH; eauto|]. destruct b; [discriminate|eapply IH; eauto].
+Qed.
+
+Lemma check_serialization_no_fault : forall names own pm b, check_serialization names own pm b <> Err EFault.
+Proof.
+  induction names as [|x r IH]; intros own pm b; cbn [check_serialization]; [discriminate|].
+  destruct (lookup_member own pm x) as [a|]; [|discriminate].
+  destruct (kind_eqb (a_kind a) KConstant || kind_eqb (a_kind a) KDerived); [discriminate|].
+  destruct (is_opt_attr a); [apply IH|]. destruct b; [discriminate|apply IH].
+Qed.
+
+Lemma lookup_all_total m : forall names, (forall n, In n names -> find_attr m n <> None) ->
+  exists attrs, lookup_all m names = Ok attrs.
+Proof.
+  induction names as [|n r IH]; intros H; cbn [lookup_all]; [eauto|].
+  destruct (find_attr m n) as [a|] eqn:E; [|exfalso; apply (H n); [now left|assumption]].
+  destruct IH as (rest & ->); [intros x Hx; apply H; now right|]. cbn [bind]. eauto.
+Qed.
+
+Lemma is_type_or_type_name_shape v : is_type_or_type_name v = true ->
+  match v with VType _ | VStr _ | VTyStr _ => True | _ => False end.
+Proof. destruct v; cbn; intros H; try discriminate; exact I. Qed.
+
+Lemma resolve_hash_parent_no_fault env h : schema_ok (VHash h) = true -> resolve_hash_parent env h <> Err EFault.
+Proof.
+  intros Hs. unfold resolve_hash_parent. destruct (hget h k_parent) as [v|] eqn:E; [|discriminate].
+  assert (Hv : is_type_or_type_name v = true).
+  { eapply (struct_inst_field init_hash_schema h k_parent false); eauto. right. now left. }
+  apply is_type_or_type_name_shape in Hv. destruct v; try contradiction.
+  - destruct (lookup_def env s); discriminate.
+  - destruct t; try discriminate. destruct (lookup_def env n); discriminate.
+  - destruct t; try discriminate. destruct (lookup_def env n); discriminate.
+Qed.
+
+Lemma init_from_hash_no_fault rt env name0 pre hv : init_from_hash rt env name0 pre hv <> Err EFault.
+Proof.
+  unfold init_from_hash. destruct (schema_ok hv) eqn:Es; cbn [negb]; [|discriminate].
+  destruct hv as [| | | | | | | |h]; try discriminate. destruct (outside_keys h); [discriminate|]. cbv zeta. intros H.
+  apply bind_err in H as [H|(par & Hpar & H)].
+  { destruct rt; [discriminate|]. now apply (resolve_hash_parent_no_fault env h Es). }
+  apply bind_err in H as [H|(parent & Hparent & H)]; [destruct par; discriminate|].
+  apply bind_err in H as [H|(cspecs & _ & H)]; [now apply constant_specs_no_fault in H|].
+  apply bind_err in H as [H|(own & Hown & H)]; [now apply build_attrs_no_fault in H|].
+  apply bind_err in H as [H|(u1 & _ & H)]; [now apply check_equality_no_fault in H|].
+  apply bind_err in H as [H|(u2 & Hser & H)]; [now apply check_serialization_no_fault in H|].
+  apply bind_err in H as [H|(info & _ & H)]; [|discriminate]. destruct u2.
+  destruct (build_attrs_ok _ _ _ _ Hown eq_refl eq_refl) as [Hon _].
+  destruct (serialization_arg h) as [names|]; [|discriminate]. cbn [create_attributes_info] in H.
+  set (pm := match parent with Some p => collect_attributes p | None => [] end) in *.
+  destruct (lookup_all_total (collect_attributes (mkDef (match hget h k_name with Some (VStr s) => s | _ => name0 end)
+                                parent own (equality_arg h) (bool_arg h k_equality_include_type true) (Some names)
+                                (mkInfo [] O []))) names) as (attrs & Ea).
+  { intros n Hn. pose proof (check_serialization_found _ _ _ _ Hser n Hn) as Hf. unfold lookup_member in Hf.
+    cbn [collect_attributes]. fold pm. now rewrite (find_put_all own Hon). }
+  rewrite Ea in H. discriminate.
+Qed.
+
+Lemma define_no_fault rt env name hv : define rt env name hv <> Err EFault.
+Proof.
+  unfold define. destruct rt.
+  - destruct hv as [| | | | | | | |h]; try discriminate. intros H. apply bind_err in H as [H|(pre & _ & H)].
+    + unfold resolve_text_parent in H. destruct (text_parent_name h) as [n|]; [|discriminate].
+      destruct (str_eqb n name); [discriminate|]. destruct (lookup_def env n); [discriminate|].
+      destruct (is_core_name n); discriminate.
+    + now apply init_from_hash_no_fault in H.
+  - destruct (negb (schema_ok hv)); [discriminate|]. destruct hv as [| | | | | | | |h]; try apply init_from_hash_no_fault.
+    destruct h; [discriminate|apply init_from_hash_no_fault].
+Qed.
+
+(* a constructor call either builds an object or is rejected as ILLEGAL_ARGUMENTS: no index fault, no
+   MISSING_REQUIRED_ATTRIBUTE after the dispatch accepted the arguments *)
+Lemma new_object_total d args : info_wf (d_info d) = true ->
+  (exists o, new_object d args = Ok o) \/ new_object d args = Err EIllegalArguments.
+Proof.
+  intros Hwf. destruct (classic_positional args) as [Hpos|(h & ->)].
+  - assert (Hgen : new_object d args =
+                   if tuple_inst (map a_type (ai_attrs (d_info d)))
+                        (count_required (ai_attrs (d_info d)) O (ai_req (d_info d)))
+                        (length (map a_type (ai_attrs (d_info d)))) args
+                   then ctor_positional d args else Err EIllegalArguments).
+    { unfold new_object. destruct args as [|v [|v2 r]]; try reflexivity; destruct v; try reflexivity.
+      exfalso. now apply (Hpos l). }
+    rewrite Hgen. destruct (tuple_inst _ _ _ args); [left; unfold ctor_positional; eauto|now right].
+  - cbn [new_object]. destruct (struct_inst (init_struct (d_info d)) (VHash h)) eqn:E; [|now right]. left.
+    apply (struct_inst_init_spec _ h Hwf) in E as (Hh & Hent & Hreq).
+    destruct (pfh_spec _ h Hwf Hh Hreq) as (vals & Ev & _). unfold ctor_named. rewrite Ev. cbn [bind]. eauto.
+Qed.
+
+Lemma acc_new_object_total d args : accepted d -> ser_complete d = true ->
+  (exists o, new_object d args = Ok o) \/ new_object d args = Err EIllegalArguments.
+Proof.
+  intros Hacc Hser. apply new_object_total. destruct (accepted_facts d Hacc) as (_ & _ & H). exact (lo_wf d (H Hser)).
+Qed.
